@@ -171,3 +171,14 @@ def r4(ctx):
     from rules import c10
     c10.r5(ctx)
     c10.r4(ctx)
+
+
+@rule('C14', 'R-C14-5', 'T11 SIBLING (one segmentation)',
+      'every CharString::new of the whitespace corruption code receives the caller\'s grapheme flag unchanged (a parameter, configuration field or '
+      'captured variable): a site that "optimises" the flag (e.g. `use_graphemes && !s.is_ascii()`) segments "\\r\\n" and friends '
+      'differently from the sites it must agree with')
+def r_segflag(ctx):
+    from rules.common import check_segmentation_flag
+    n = check_segmentation_flag(ctx, [ctx.body(n) for n in ['data::preprocessing::corrupt_whitespace']], 'whitespace corruption')
+    if n == 0:
+        raise AnchorMissing('CharString::new sites of the whitespace corruption code')
